@@ -358,12 +358,31 @@ func bitsOf(ty types.Type) int {
 	return n.BitLen()
 }
 
+// emptyStringTest: for a comparison of a string with the literal "", the equivalent length test (nil otherwise)
+func emptyStringTest(a, b *Term) *Term {
+	if a == nil || b == nil {
+		return nil
+	}
+	if l, ok := litOf(b); ok && l == "" {
+		if la, oka := litOf(a); oka {
+			return Bool(la == "")
+		}
+		return Eq(strLen(a), Num(0))
+	}
+	if l, ok := litOf(a); ok && l == "" {
+		return Eq(strLen(b), Num(0))
+	}
+	return nil
+}
+
 func (ex *Executor) binop(st *State, ins ssa.Instruction, op token.Token, a, b Val, opTy, resTy types.Type) Val {
 	res := func(t *Term) Val { return Val{T: t, Ty: resTy} }
 	switch op {
 	case token.EQL, token.NEQ:
 		var eq *Term
-		if a.T != nil && b.T != nil && a.T.S == b.T.S {
+		if e := emptyStringTest(a.T, b.T); e != nil {
+			eq = e // s == "" is the same test as len(s) == 0
+		} else if a.T != nil && b.T != nil && a.T.S == b.T.S {
 			eq = Eq(a.T, b.T)
 		} else if a.Fs != nil || b.Fs != nil {
 			eq = Fresh("structeq", SBool)
@@ -384,7 +403,7 @@ func (ex *Executor) binop(st *State, ins ssa.Instruction, op token.Token, a, b V
 		return res(ex.cmpVals(st, ">=", a, b, opTy))
 	}
 	if isString(opTy) && op == token.ADD {
-		t := App("strcat", SInt, a.T, b.T)
+		t := StrCat(a.T, b.T)
 		return res(t)
 	}
 	if !isInteger(opTy) {
